@@ -301,12 +301,15 @@ def main(argv):
             # view_agrees_with_reference / view_no_undefined_behaviour (packets): their hypotheses on this layout (decidable),
             # and the statements evaluated on every input of the run
             in_class = False
+            no_ub_class = False
             if mcs is not None:
                 hyp = be.model(i, T, [{"k": "len", "v": {}}])
                 if is_child:
                     # child_view_accepts_what_the_reference_accepts / child_view_is_reference_or_constraint
                     in_class = bool(isinstance(hyp, list) and hyp[0].get("cxxvchain"))
+                    no_ub_class = bool(in_class and hyp[0].get("decwf"))
                     run.hist("theorem_hypotheses", "Cxx.vwfChain:%s" % in_class)
+                    run.hist("theorem_hypotheses", "Cxx.vwfChain&decWfBody:%s" % no_ub_class)
                 else:
                     key = "cxxwf" if is_struct else "cxxvwf"
                     in_class = bool(isinstance(hyp, list) and hyp[0].get(key) and hyp[0].get("decwf"))
@@ -327,6 +330,8 @@ def main(argv):
                             same = m.get("r") == "err" and m.get("e") == "ConstraintValueError"
                         else:
                             same = True
+                        if no_ub_class and mc.get("r") == "panic":
+                            same = False        # child_view_no_undefined_behaviour
                     else:
                         same = (mc.get("r") == "ok") == (m.get("r") == "ok") and mc.get("r") != "panic" and \
                             (mc.get("r") != "ok" or (W.canon(mc.get("value")) == W.canon(m.get("value")) and mc.get("rest") == m.get("rest")))
